@@ -23,7 +23,8 @@ THEOREM_FILE = "Properties/C07.v"
 COQCHK = ["Properties.C07"]
 RULE = ("pool: hand-written near-collisions (same items in different containers, nestings that flatten to the same sequence, strings spelling "
         "serialisations incl. 'list:<sha256>', repeated items in different positions, == numbers of different types, empty containers) + random "
-        "values with rebuilt (equal) and single-edit (different) neighbours; a case = an unordered pair of pool values under one mode; "
+        "values with rebuilt (equal) and single-edit (different) neighbours; memo-order shapes (an atom in key / member / item position that is == to an atom "
+        "visited earlier or later in the same root value, every carrier x holder x visiting order); a case = an unordered pair of pool values under one mode; "
         "non-trivial = the two hashes are equal or the values have the same type; distinct = distinct (mode, canonical pair)")
 TRUSTED = [
     "Section hypotheses H_tok (hasher outputs non-empty, free of , ; : | { }) and H_inj (hasher injective) stand for SHA-256 hexdigest being "
@@ -215,15 +216,23 @@ def _k4(case):
 
 
 def _k2(case):
-    """memo aliasing: == atoms of different type co-occur in one of the values, and the pair is equal once every
-    number is read as the first == number visited before it in the same value"""
+    """memo aliasing, recomputed on the pair: the mechanism of the UNCHANGED code (_collapse: every hashable object is
+    read as the first == table key visited before it in the same value; a bool is its BoolObj at EVERY position - item,
+    dict key, set member - and aliases nothing) acts inside one of the values and makes the two canonical forms EQUAL,
+    i.e. K2 predicts this very collision.  An == -alias that is merely present does not absorb a collision
+    ([1, {True: 'x'}] / [1, {1: 'x'}] is not K2: the key True is looked up as BoolObj.TRUE, never as 1)"""
     if case.get("kind") != "collision":
         return False
     o = tuple(case["opts"])
     a, b = from_repr(case["value"]), from_repr(case["other"])
-    if not (base.memo_alias(a) or base.memo_alias(b)):
+    ca, cb = _collapse(a), _collapse(b)
+    if not (_differs(ca, a) or _differs(cb, b)):     # the table merges nothing inside either value: not this finding
         return False
-    return canon_mode(_collapse(a), o) == canon_mode(_collapse(b), o)
+    return canon_mode(ca, o) == canon_mode(cb, o)
+
+
+def _differs(v, w):
+    return canon_mode(v, ORDERED_MODE) != canon_mode(w, ORDERED_MODE)
 
 
 MATCHERS = {"K1": _k1, "K4": _k4, "K2": _k2}
@@ -390,6 +399,168 @@ def oracle_keys(ctx):
             expr = (fn % (base.coq_opts(o), kvs)) if fn else "run_kdict_under_key %s %s %s" % (base.coq_opts(o), values.atom_to_coq(key), kvs)
             cases.append((expr, impl_hash(v, o, hexhasher)[0], {"value": e, "opts": list(o), "check": "dict with container keys: key hashed as a value"}))
     ctx.coq_cases("c07_keys", HEADER_KEYS, cases, shard=60, label="container_keys_exact_strings")
+
+
+# ---------------------------------------------------------------------------
+# memo-order inputs (after seeded C07-10): an atom k in a KEY / member / item position of a root value that also holds,
+# at another position visited EARLIER or LATER, an atom t that is == to k (its twin of another type, or k itself).
+# What _hash does before it consults the == -keyed table (bool -> BoolObj) must happen at EVERY position: a bool
+# never takes the hash of its numeric twin, whatever was visited before it.
+# ---------------------------------------------------------------------------
+
+MEMO_TWINS = [   # (k, the atoms that are == to k: the twins of other types, then k itself)
+    ("True", ["1", "1.0", "True"]), ("False", ["0", "0.0", "False"]),
+    ("1", ["True", "1.0", "1"]), ("0", ["False", "0.0", "0"]), ("1.0", ["True", "1", "1.0"]), ("0.0", ["False", "0", "0.0"]),
+    ("2", ["2.0", "2"]), ("'x'", ["'x'"]), ("None", ["None"]),
+    # composite keys (outside the universe of the models: oracle only)
+    ("(1, 2)", ["(True, 2)", "(1.0, 2)", "(1, 2)"]), ("(True, 2)", ["(1, 2)", "(1.0, 2)", "(True, 2)"]),
+    ("frozenset([1])", ["frozenset([True])", "frozenset([1.0])", "frozenset([1])"]),
+    ("frozenset([True])", ["frozenset([1])", "frozenset([True])"]),
+]
+MEMO_CARRIERS = [   # where k sits
+    ("dict_key", "{k: 'x'}"), ("dict_key_later", "{'p': 'q', k: []}"), ("set_member", "set([k])"), ("frozenset_member", "frozenset([k, 'y'])"),
+    ("list_item", "[k, 'x']"), ("tuple_item", "(k, 'x')"), ("dict_value", "{'v': k}"),
+]
+MEMO_HOLDERS = [    # where t sits
+    ("bare", "t"), ("list_item", "[t]"), ("tuple_item", "(t,)"), ("set_member", "set([t])"), ("frozenset_member", "frozenset([t])"),
+    ("dict_value", "{'w': t}"), ("dict_key", "{t: 'y'}"),
+]
+MEMO_ROOTS = [      # H = the holder of t, C = the carrier of k: both visiting orders, list / tuple / dict root, one level deeper
+    ("list:t_first", "[H, C]"), ("list:k_first", "[C, H]"), ("dict:t_first", "{'a': H, 'b': C}"), ("dict:k_first", "{'b': C, 'a': H}"),
+    ("tuple:t_first", "(H, C)"), ("deeper:k_first", "[[C], H]"), ("tuple:k_first", "(C, H)"), ("deeper:t_first", "{'a': H, 'b': [C]}"),
+]
+MEMO_SPECIAL = [    # k and t inside ONE dict: t the enclosing key, t the key's own item, t an earlier / later sibling item or key
+    ("enclosing_key", "{t: {k: 'x'}}"), ("own_item", "{k: t}"), ("own_item_in_list", "{k: [t]}"), ("sibling_item_earlier", "{'z': t, k: 'x'}"),
+    ("sibling_item_later", "{k: 'x', 'z': t}"), ("alone", "{k: 'x'}"), ("alone_in_list", "[{k: 'x'}]"), ("member_alone", "[set([k])]"),
+    ("sibling_key_nested", "[{t: 'y', 'c': {k: 'x'}}]"), ("two_levels", "{'a': 0.5, 'b': [t, {'c': [{k: []}]}]}"),
+]
+
+
+def _in_universe(v):
+    try:
+        values.to_coq(v)
+        return True
+    except (TypeError, AssertionError):
+        return False
+
+
+def memo_order_shapes(roots=None, n_roots=6):
+    """[(group, expression, value, (k, t))]: every (k, t) of MEMO_TWINS at every (carrier of k) x (holder of t) x (root
+    shape), plus the one-dict shapes.  group = the shape without (k, t): the values of one group differ in k / t only, so
+    a key that takes its twin's hash makes two values of one group collide."""
+    out, seen = [], set()
+
+    def add(group, e, kt):
+        if e in seen:
+            return
+        try:
+            v = from_repr(e)
+        except TypeError:        # unhashable member / key: not a value
+            return
+        seen.add(e)
+        out.append((group, e, v, kt))
+    for k, ts in MEMO_TWINS:
+        numeric = k in MEMO_NUMERIC
+        composite = k[0] in "(f"
+        for t in ts:
+            bind = "(lambda k, t: %%s)(%s, %s)" % (k, t)
+            for cn, c in (MEMO_CARRIERS[:3] if composite else MEMO_CARRIERS):
+                for hn, h in (MEMO_HOLDERS[::2] if composite else MEMO_HOLDERS):
+                    for rn, r in (roots or (MEMO_ROOTS[:n_roots] if numeric else MEMO_ROOTS[:2])):
+                        add((rn, cn, hn), bind % r.replace("H", h).replace("C", c), (k, t))
+            for sn, s_ in MEMO_SPECIAL:
+                add(("one_dict", sn), bind % s_, (k, t))
+    return out
+
+
+MEMO_NUMERIC = ("True", "1", "1.0", "False", "0", "0.0")
+
+
+def oracle_memo_order(ctx, shapes):
+    """direct oracle on the memo-order inputs: all pairs, three modes (SHA-256; thorough: the hex hasher as well)"""
+    pool = [s_[2] for s_ in shapes]
+    for o in MODES3:
+        oracle_pool(ctx, pool, o, None, "sha256,memo_order")
+        if ctx.thorough:
+            oracle_pool(ctx, pool, o, hexhasher, "hex,memo_order")
+    for s_ in shapes:
+        ctx.count("memo_order:values:" + s_[0][0])
+
+
+def corr_memo_order(ctx, shapes):
+    """the model (hash_memo: bool keys / members / items are BoolObj BEFORE the table lookup, everything else is looked up
+    by ==) against the implementation on the memo-order inputs inside the universe: (a) per group, the equality pattern
+    of the SHA-256 hashes == the pattern of `deephash hexhash`; (b) the exact root string and EVERY table entry (the
+    per-object hashes) == run_one.  Quick tier: a systematic slice - (a) list roots in both visiting orders and
+    the one-dict shapes, every carrier x holder, the True/1/1.0 and the False/0/0.0 family alternating, the three modes
+    rotating so that every carrier and every holder meets every mode; (b) one value with a bool key or a bool twin per
+    carrier x holder (list root, the visiting order alternating) and per one-dict shape (type-checking the expected
+    tables is what costs).  Thorough: everything, three modes.  (The direct oracle sees all of it in every tier.)"""
+    ci = {n: i for i, (n, _c) in enumerate(MEMO_CARRIERS)}
+    hi = {n: i for i, (n, _h) in enumerate(MEMO_HOLDERS)}
+    ri = {n: i for i, (n, _r) in enumerate(MEMO_ROOTS)}
+    si = {n: i for i, (n, _s) in enumerate(MEMO_SPECIAL)}
+    groups = {}
+    for g, e, v, kt in shapes:
+        if _in_universe(v):
+            groups.setdefault(g, []).append((e, v, kt))
+    cases, exact = [], []
+    for g, evs in groups.items():
+        if g[0] == "one_dict":
+            rot, modes = si[g[1]], MODES3
+            evs = [x for x in evs if x[2][0] in MEMO_NUMERIC or ctx.thorough]
+        else:
+            rot, modes = ci[g[1]] + hi[g[2]] + ri[g[0]], MODES3
+            if not ctx.thorough:
+                if ri[g[0]] >= 2:
+                    continue
+                fam = MEMO_NUMERIC[:3] if (ci[g[1]] + hi[g[2]] + ri[g[0]]) % 2 == 0 else MEMO_NUMERIC[3:]
+                evs = [x for x in evs if x[2][0] in fam]
+        if not ctx.thorough:
+            modes = [MODES3[rot % 3]]
+        vs = [v for _e, v, _kt in evs]
+        body = ";\n ".join(values.to_coq(v) for v in vs)
+        for o in modes:
+            hs = [impl_hash(v, o)[0] for v in vs]
+            cases.append(("run_classes %s [%s]" % (base.coq_opts(o), body), base.classes_of(hs),
+                          {"group": list(g), "values": [e for e, _v, _kt in evs], "opts": list(o), "check": "memo-order inputs: sha256 equality pattern == model"}))
+            ctx.count("corr:memo_order_pattern_pairs", len(vs) * (len(vs) - 1) // 2)
+        # exact strings and tables: values in which k or t is a bool (the unchanged code keeps them apart from their twins)
+        bools = [x for x in evs if x[2][0] != x[2][1] and ("True" in x[2] or "False" in x[2])]
+        picks = bools if ctx.thorough else [bools[rot % len(bools)]] if bools and (g[0] == "one_dict" or ri[g[0]] == (ci[g[1]] + hi[g[2]]) % 2) else []
+        for j, (e, v, _kt) in enumerate(picks):
+            o = MODES3[(rot + 1 + j) % 3]
+            root, dh = impl_hash(v, o, hexhasher)
+            exact.append(("run_one %s %s" % (base.coq_opts(o), values.to_coq(v)), [root, base.table_of(dh.hashes, [v])],
+                          {"value": e, "opts": list(o), "impl_root": base.unhex(root)[:300], "check": "memo-order input: root and every table entry"}))
+    ctx.coq_cases("c07_memo_pattern", base.HEADER, cases, shard=max(4, len(cases) // core.NCPU + 1), label="memo_order_equality_patterns")
+    ctx.coq_cases("c07_memo_exact", base.HEADER, exact, shard=max(20, len(exact) // core.NCPU + 1), label="memo_order_exact_strings_and_tables")
+
+
+MATCHER_AUDIT = [   # (finding, value, other, mode, must the matcher accept?)
+    ("K2", "[1, 1.0]", "[1]", SET_MODE, True), ("K2", "[(1,), (True,)]", "[(1,)]", SET_MODE, True),
+    ("K2", "[1, {1.0: 'x'}]", "[1, {1: 'x'}]", MULTI_MODE, True),
+    # an == -alias is present in each of these, but the table of the unchanged code never merges the pair:
+    ("K2", "[1, {True: 'x'}]", "[1, {1: 'x'}]", SET_MODE, False), ("K2", "[1.0, {True: None}]", "[1.0, {1.0: None}]", ORDERED_MODE, False),
+    ("K2", "{'a': 0, 'b': [{False: []}]}", "{'a': 0, 'b': [{0: []}]}", MULTI_MODE, False),
+    ("K2", "[1, set([True])]", "[1, set([1])]", SET_MODE, False), ("K2", "[1, (True, 'x')]", "[1, (1, 'x')]", SET_MODE, False),
+    ("K2", "[True, {1: 'x'}]", "[True, {True: 'x'}]", SET_MODE, False), ("K2", "[{1: 'x'}, 1.0]", "[{1: 'x'}, True]", SET_MODE, False),
+    ("K2", "[1, 1.0, {True: 'x'}]", "[1, 1.0, {1: 'x'}]", SET_MODE, False), ("K2", "{True: 1}", "{1: 1}", SET_MODE, False),
+    ("K4", "[1, {True: 'x'}]", "[1, {1: 'x'}]", ORDERED_MODE, False), ("K1", "[1, {True: 'x'}]", "[1, {1: 'x'}]", SET_MODE, False),
+]
+
+
+def matcher_audit(ctx):
+    """the known-finding matchers must recompute the finding's MECHANISM on the pair (K2: the pair is equal once every
+    object is read as the first == table key visited before it, a bool being its BoolObj at every position) - the mere
+    presence of an == -alias must not absorb a collision the unchanged code does not have"""
+    for key, a, b, o, want in MATCHER_AUDIT:
+        case = {"kind": "collision", "opts": list(o), "value": a, "other": b, "hasher": "sha256"}
+        got = bool(MATCHERS[key](case))
+        ctx.count("matcher_audit:cases")
+        if got != want:
+            ctx.break_("harness", {"name": "matcher_audit", "detail": "matcher %s %s the pair %s / %s (%s mode); it must %s it" % (
+                key, "accepts" if got else "rejects", a, b, MODE_NAME.get(o, "?"), "accept" if want else "reject")})
 
 
 def spells_digest(v):
@@ -795,6 +966,10 @@ def run(ctx):
     oracle_hashers(ctx, pool)
     oracle_other_leaves(ctx)
     oracle_keys(ctx)
+    matcher_audit(ctx)
+    shapes = memo_order_shapes(n_roots=8 if ctx.thorough else 6)
+    oracle_memo_order(ctx, shapes)
+    corr_memo_order(ctx, shapes)
     # direct oracle: all pairs, three modes, both hashers
     for o in MODES3:
         oracle_pool(ctx, pool, o, None, "sha256")
